@@ -85,6 +85,12 @@ func famForest(g *Gen, tier string, shard, nshards int) {
 					}
 				}
 			}
+			if manyTrees && b > 0 && g.Intn(5) == 0 {
+				// now and then: leaves spread over the whole forest plus some of the right
+				// edge, or all but one leaf of a big tree (the survivor climbs many rows)
+				dels = manyTreeDeletions(g, s.alive, 1+g.Intn(2))
+				nAdds = manyTreeAdds(g)
+			}
 			s.applyBlock(dels, nAdds)
 			s.obsRoots()
 			if g.Intn(3) == 0 || b == nBlocks-1 {
